@@ -33,11 +33,11 @@ package util
 //@ nomod
 //@ prop C06 C08
 //@ ensures[only-if-a-configured-rule-matches-host-and-port] result ==> exists k int :: 0 <= k && k < len(allowedDomains)
-//@     && allowedHostOf(allowedDomains[k]) != "" && hostMatch(ret(Hostname), allowedHostOf(allowedDomains[k]))
+//@     && allowedHostOf(allowedDomains[k]) != "" && hostMatch(net_url_Hostname(endpoint), allowedHostOf(allowedDomains[k]))
 //@     && portMatch(allowedPortOf(allowedDomains[k]), net_url_Port(endpoint))
 //@ loop 0 invariant[no-earlier-rule-matched] rangeindex >= -1 && forall j int :: 0 <= j && j <= rangeindex ==>
 //@     !(allowedHostOf(allowedDomains[j]) != "" && hostMatch(hostname, allowedHostOf(allowedDomains[j]))
 //@       && portMatch(allowedPortOf(allowedDomains[j]), net_url_Port(endpoint)))
 //@ ensures[if-a-configured-rule-matches] !result ==> forall j int :: 0 <= j && j < len(allowedDomains) ==>
-//@     !(allowedHostOf(allowedDomains[j]) != "" && hostMatch(ret(Hostname), allowedHostOf(allowedDomains[j]))
+//@     !(allowedHostOf(allowedDomains[j]) != "" && hostMatch(net_url_Hostname(endpoint), allowedHostOf(allowedDomains[j]))
 //@       && portMatch(allowedPortOf(allowedDomains[j]), net_url_Port(endpoint)))
